@@ -423,7 +423,7 @@ pub proof fn lemma_flag_full(s: SATSolver, k: int)
     }
 }
 
-// ---- what the flag means for the FORMULA: relative to wnorm, which SATSolver::new ensures (A-normalise) ----
+// ---- what the flag means for the FORMULA: relative to wnorm, which SATSolver::new is proved to ensure ----
 /// the clause contains a literal and its negation
 #[verifier::opaque]
 pub open spec fn taut(c: Seq<Literal>) -> bool { exists|j: int, k: int| 0 <= j < c.len() && 0 <= k < c.len() && (#[trigger] c[j]).lbl == (#[trigger] c[k]).lbl && c[j].pol != c[k].pol }
